@@ -395,14 +395,22 @@ macro_rules! ecmp_items {
 }
 macro_rules! new_graph_items {
     (di) => {
+        fn graph_sizeof(g: &G) -> Option<usize> { Some(g.sizeof()) }
         fn graph_with_capacity(n: usize) -> G { G::with_capacity(n) }
         fn index_both(g: &G, k: usize) -> (usize, usize) { (*g[k].key(), *g[&k].key()) }
     };
     (sdi) => {
+        fn graph_sizeof(g: &G) -> Option<usize> { Some(g.sizeof()) }
         fn graph_with_capacity(_n: usize) -> G { G::default() }
         fn index_both(g: &G, k: usize) -> (usize, usize) { (*g[k].key(), *g[&k].key()) }
     };
     (un) => {
+        fn graph_sizeof(g: &G) -> Option<usize> { Some(g.sizeof()) }
+        fn graph_with_capacity(_n: usize) -> G { G::default() }
+        fn index_both(g: &G, k: usize) -> (usize, usize) { (*g[k].key(), *g[k].key()) }
+    };
+    (sun) => {
+        fn graph_sizeof(_g: &G) -> Option<usize> { None }
         fn graph_with_capacity(_n: usize) -> G { G::default() }
         fn index_both(g: &G, k: usize) -> (usize, usize) { (*g[k].key(), *g[k].key()) }
     };
@@ -430,6 +438,13 @@ macro_rules! ext_mod {
             ecmp_items!($ecmp);
             new_graph_items!($ng);
 
+            /// `@szc=c0,c1,ck`: fixed part of a node's size, size per outgoing entry, size of a key
+            fn sz_annot() -> String {
+                use std::mem::size_of;
+                let node = size_of::<N>();
+                let c0 = node + size_of::<usize>() + size_of::<i64>() + 2 * size_of::<Vec<(usize, u32)>>() + node;
+                format!("@szc={},{},{}", c0, node + size_of::<u32>(), size_of::<usize>())
+            }
             /// one operation of a C20 script, against the live graph; returns its result as text
             pub fn script_op(st: &St, g0: &RefCell<G>, op: &crate::exec_conc::Call2) -> String {
                 let n = |k: usize| st.node(k).clone();
@@ -685,6 +700,12 @@ macro_rules! ext_mod {
                             _ => "none".into(),
                         }
                     }
+                    "sz" => {
+                        // sz u : Node::sizeof; the layout constants come from std::mem::size_of here, not from the crate
+                        let n = st.node(t[1].parse().unwrap());
+                        ext.annot = Some(sz_annot());
+                        format!("sz={}", n.sizeof())
+                    }
                     "nv" => {
                         // nv u : key, value through value() and through Deref
                         let n = st.node(t[1].parse().unwrap());
@@ -697,6 +718,13 @@ macro_rules! ext_mod {
                         let c18 = !ctx.quiet && ctx.oracles.iter().any(|o| o == "c18");
                         let p = |j: usize| -> usize { t[j].parse::<usize>().unwrap() };
                         match x {
+                            "g.sz" => {
+                                ext.annot = Some(sz_annot());
+                                match graph_sizeof(&ext.graphs[i]) {
+                                    Some(x) => format!("sz={x}"),
+                                    None => "unsupported".into(),
+                                }
+                            }
                             "g.newcap" => {
                                 // with_capacity where the flavour has it, Default otherwise
                                 ext.graphs[i] = graph_with_capacity(p(2));
@@ -982,4 +1010,4 @@ macro_rules! ext_mod {
 ext_mod!(di, digraph, di, di, no, yes, di);
 ext_mod!(sdi, sync_digraph, di, di, yes, no, sdi);
 ext_mod!(un, ungraph, un, un, no, yes, un);
-ext_mod!(sun, sync_ungraph, un, sun, yes, yes, un);
+ext_mod!(sun, sync_ungraph, un, sun, yes, yes, sun);
